@@ -138,6 +138,11 @@ func (a *Aggregator) aggregate(ctx context.Context, pubkey core.PubKey, parSigs 
 		return nil, errors.New("number of partial signatures less than threshold", z.Int("threshold", a.threshold), z.Int("got", len(blsSigs)))
 	}
 
+	// A share may contribute only once.
+	if len(blsSigs) != len(parSigs) {
+		return nil, errors.New("repeated partial signature share index", z.Int("partials", len(parSigs)), z.Int("shares", len(blsSigs)))
+	}
+
 	// Aggregate signatures
 	_, span := tracer.Start(ctx, "tbls.ThresholdAggregate")
 	defer span.End()
